@@ -261,6 +261,38 @@ def r04_4(chk, facts):
                     fn['n'], lt, a, want_op, b, lt, '<' if want_op == '+' else '>', a, 'carry' if want_op == '+' else 'borrow'), None, fn['q'])
     chk.require(n >= 6, 'R04.4: only %d word operations found in the bigint add/subtract loops' % n)
 
+def r04_6(chk, facts):
+    """bigint storage growth: capacity first, length second."""
+    chk.rule('R04.6', 'bigint storage growth order: in every member function of the bigint storage that both calls reserve() on *this and assigns '
+                      'the length field, the reserve() call dominates the assignment - reserve() copies `size_` words from the old block, so a '
+                      'length that already counts the new words makes it read past the old block', floor=1)
+    n = 0; seen = set()
+    for fn in facts.functions:
+        if not fn['file'].endswith('utility/bigint.hpp') or fn.get('body') is None or fn.get('dep') or (fn['file'], fn['l']) in seen: continue
+        res = [c for c in A.calls_in(fn['body'], no_lambda=True) if c.get('k') == 'CXXMemberCallExpr' and A.callee_name(c) == 'reserve'
+               and (A.strip(c.get('obj'), casts=True) or {'k': 'CXXThisExpr'}).get('k') == 'CXXThisExpr']
+        if not res: continue
+        g = C.CFG(fn['body'])
+        sizes = []
+        for nd in g.rpo:
+            if nd.kind != 'stmt' or not isinstance(nd.ast, dict): continue
+            x = A.strip(nd.ast, casts=True)
+            if x is not None and x.get('k') == 'BinaryOperator' and x.get('op') == '=':
+                l = A.strip(x.get('lhs'), casts=True)
+                if l is not None and l.get('k') == 'MemberExpr' and l.get('n') in ('size_', 'length_'): sizes.append(nd)
+        if not sizes: continue
+        seen.add((fn['file'], fn['l']))
+        chk.analysed(fn)
+        rn = [g.node_of(c) for c in res]
+        for i, sn in enumerate(sizes):
+            n += 1
+            site = U.site(fn, 'length assignment #%d' % (i + 1))
+            if any(r is not None and g.dominates(r, sn) for r in rn): chk.ok('R04.6', site, {'function': fn['q'], 'line': sn.line})
+            else:
+                chk.fail('R04.6', site, fn['file'], sn.line, '%s assigns the length at line %s before (or without) the reserve() of the new capacity: reserve() then copies that '
+                         'many words out of the old, smaller block' % (fn['n'], sn.line), None, fn['q'])
+    chk.require(n >= 1, 'R04.6: no function of the bigint storage grows and sets its length')
+
 def r04_5(chk, facts):
     """bigint storage views: a view taken before resize()/reserve() is refreshed before it is used again."""
     chk.rule('R04.5', 'bigint view freshness: a local holding get_storage_view() of *this is not read after a resize()/reserve() of *this '
@@ -318,6 +350,7 @@ def run(chk, tier, only_rule=None):
     r04_3(chk, facts)
     r04_4(chk, facts)
     r04_5(chk, facts)
+    r04_6(chk, facts)
     from . import c01
     c01.r01_7(chk, facts)
     c05.r05_1(chk, facts)
